@@ -158,3 +158,34 @@ Definition thermal_eqb (cn hf w : vec) (o : res robj) (adiab is_stream : bool) (
                 qapprox_scaled scale (Hnet H hf (snd r)) hnet'
       end
   end.
+
+(* ====================================================================================== *)
+(* Conversions of a set live in ONE array (ReactionSet._X): ReactionItem._X is that array,
+   a slice sub-set holds a numpy view of it, `set.X = v` writes into it (`self._X[:] = v`),
+   `item.X = x` writes entry index, `set.X[i] = x` likewise; ReactionSystem.X = [...] forwards
+   to each part.  All handles, old or new, therefore read the entries the set itself uses.
+   Flattened over the members of the object, every such assignment is a write of one entry or
+   of a contiguous range. *)
+Inductive xop := XWrite (k : nat) (x : Q) | XRange (off : nat) (xs : vec).
+
+Fixpoint write_range (off : nat) (xs : vec) (v : vec) : vec :=
+  match xs with [] => v | x :: t => write_range (S off) t (upd v off x) end.
+Definition xstep (v : vec) (o : xop) : vec :=
+  match o with XWrite k x => upd v k x | XRange off xs => write_range off xs v end.
+Definition xrun (v : vec) (ops : list xop) : vec := fold_left xstep ops v.
+
+(* the object with the conversions of its members replaced, in member order *)
+Definition set_Xs (o : robj) (xs : vec) : robj := rebuild o (map2 set_X (flat_members o) xs).
+Definition apply_xhist (o : robj) (ops : list xop) : robj :=
+  set_Xs o (xrun (map X (flat_members o)) ops).
+Definition xhist_res (o : res robj) (ops : list xop) : res robj := do x <- o; Ok (apply_xhist x ops).
+
+(* what every handle reads after the history *)
+Definition xs_eqb (o : res robj) (ops : list xop) (seen : list vec) : bool :=
+  match o with
+  | Err _ => false
+  | Ok ob => forallb (fun s => vapproxb (xrun (map X (flat_members ob)) ops) s) seen
+  end.
+
+(* a + b of two reactions (V.C17.Model.radd), used to obtain a chemical in two phases *)
+Definition rsum (mws : vec) (a b : res rxn) : res rxn := do x <- a; do y <- b; radd mws x y.
